@@ -13,3 +13,17 @@ Print Assumptions C02_ref_when_present.
 Theorem C02_uvc_is_spec : forall v, v < two48 -> uvc_write_bits v = uvc_spec_bits v.
 Proof. exact uvc_write_is_spec. Qed.
 Print Assumptions C02_uvc_is_spec.
+
+(* the encoder only appends: bits and bytes already emitted into a column are a prefix of the
+   column after any further record, and a legal step never raises the encoder's error flag *)
+From Stef Require Import Schema Wire WireOk Writer WireFactsBase WireFacts.
+
+Theorem C02_enc_appends_only : forall a env t ws, mono ws (enc env t a ws).
+Proof. exact mono_enc. Qed.
+Print Assumptions C02_enc_appends_only.
+
+Theorem C02_enc_no_error : forall sizes a env t prev ws rs T,
+  sync T ws rs -> wire_ok sizes env t prev a ws (r_alloc rs) = true ->
+  extends T (enc env t a ws) -> w_err (enc env t a ws) = false.
+Proof. exact enc_no_error. Qed.
+Print Assumptions C02_enc_no_error.
